@@ -52,11 +52,19 @@ pub enum Term4 {
     Standard,
     /// same, but written with idRangeOffset 0xFFFF as old Fontographer fonts do (commonly tolerated)
     Fontographer,
+    /// no separate terminator: the last segment of `segs` itself ends at 0xFFFF (and may map real characters),
+    /// which is all the specification requires of the final segment
+    InLastSegment,
 }
 
-/// `segs` must be sorted by end code, non-overlapping and must not contain 0xFFFF.
+/// `segs` must be sorted by end code and non-overlapping; they must not contain 0xFFFF unless `term` is
+/// `InLastSegment`, in which case the last one must end at 0xFFFF.
 pub fn fmt4(segs: &[Seg4], term: Term4) -> (Vec<u8>, Model) {
-    let n = segs.len() + 1;
+    let own_term = term != Term4::InLastSegment;
+    if !own_term {
+        assert_eq!(segs.last().map(|s| s.range().1), Some(0xFFFF));
+    }
+    let n = segs.len() + own_term as usize;
     let (sr, es, rs) = search_fields(n as u16, 2);
     let mut garr: Vec<u16> = Vec::new();
     let mut range_offsets: Vec<u16> = Vec::new();
@@ -96,24 +104,36 @@ pub fn fmt4(segs: &[Seg4], term: Term4) -> (Vec<u8>, Model) {
     for s in segs {
         w.u16(s.range().1);
     }
-    w.u16(0xFFFF).u16(0);
+    if own_term {
+        w.u16(0xFFFF);
+    }
+    w.u16(0); // reservedPad
     for s in segs {
         w.u16(s.range().0);
     }
-    w.u16(0xFFFF);
+    if own_term {
+        w.u16(0xFFFF);
+    }
     for s in segs {
         match s {
             Seg4::Delta { delta, .. } | Seg4::Array { delta, .. } => w.i16(*delta),
         };
     }
-    w.u16(1);
+    if own_term {
+        w.u16(1);
+    }
     for r in &range_offsets {
         w.u16(*r);
     }
-    w.u16(match term {
-        Term4::Standard => 0,
-        Term4::Fontographer => 0xFFFF,
-    });
+    match term {
+        Term4::Standard => {
+            w.u16(0);
+        }
+        Term4::Fontographer => {
+            w.u16(0xFFFF);
+        }
+        Term4::InLastSegment => {}
+    }
     for g in &garr {
         w.u16(*g);
     }
